@@ -539,20 +539,38 @@ def defs_on_spine(root: Node) -> bool:
     """True when every capture definition (first occurrence in document order) lies on the
     executed-exactly-once spine: a direct child of the top-level list (or a direct operand of
     such an item) with times (1,1), not inside $or/$not/$and_any_order/any repeated element."""
-    def walk(node, on_spine):
+    uses = {}
+
+    def count(node):
+        if node.kind in ("icap", "ocap", "oreg"):
+            key = node.name if node.kind != "oreg" else node.extra[1]
+            uses[(node.kind[0], key)] = uses.get((node.kind[0], key), 0) + 1
+        for c in (node.children or []):
+            count(c)
+        if node.kind == "oderef":
+            for v in node.extra.values():
+                for x in v:
+                    if isinstance(x, Node):
+                        count(x)
+    count(root)
+
+    def walk(node, on_spine, dead=False):
+        dead = dead or node.hi == 0          # an element repeated zero times never executes: a name that occurs only there binds nothing
         here = on_spine and node.lo == 1 and node.hi == 1
         if node.is_def and not here:
-            return False
+            key = node.name if node.kind != "oreg" else node.extra[1]
+            if not (dead and uses.get((node.kind[0], key), 0) == 1):
+                return False
         if node.kind == "igroup":
             inner = here and node.name == "and"
-            return all(walk(c, inner) for c in node.children)
+            return all(walk(c, inner, dead) for c in node.children)
         if node.kind == "item":
-            return all(walk(c, here) for c in (node.children or []))
+            return all(walk(c, here, dead) for c in (node.children or []))
         if node.kind == "ogroup":
             inner = here and node.name == "and"
-            return all(walk(c, inner) for c in node.children)
+            return all(walk(c, inner, dead) for c in node.children)
         if node.kind == "oderef":
-            return all(walk(x, here and len(v) == 1) for v in node.extra.values() for x in v if isinstance(x, Node))
+            return all(walk(x, here and len(v) == 1, dead) for v in node.extra.values() for x in v if isinstance(x, Node))
         return True
     return walk(root, True)
 
